@@ -13,10 +13,12 @@ import (
 	"context"
 	"errors"
 	"fmt"
+	templrun "github.com/a-h/templ/cmd/templ/generatecmd/run"
 	templruntime "github.com/a-h/templ/runtime"
 	"io"
 	"log/slog"
 	"os"
+	"os/exec"
 	"path/filepath"
 	"regexp"
 	"runtime"
@@ -974,8 +976,87 @@ func classify(c candidate) string {
 	return "other"
 }
 
+// ---------- free-running pass: the watch command itself (several saves in one debounce window) ----------
+
+// watchOrderChild runs the real `templ generate --watch --cmd` loop (generatecmd.Run) on two templates. The command it
+// restarts appends a line to starts.log. After start-up, template a is saved with another Go expression and, 40 ms
+// later, template b with another text: the program must be restarted (the edit to a needs a recompilation) whether the
+// two saves fall into one debounce window or not. Prints WATCHORDER ok | missed | setup-failed and exits at once
+// (the shutdown of the watch loop is not part of this).
+func watchOrderChild(dir string) {
+	os.MkdirAll(dir, 0o755)
+	write := func(name, content string) { os.WriteFile(filepath.Join(dir, name), []byte(content), 0o644) }
+	write("go.mod", "module watched\n\ngo 1.23.0\n")
+	write("start.sh", "echo started >> starts.log\nexec sleep 600\n")
+	write("a.templ", "package watched\n\ntempl A(first, second string) {\n\t<h1>Hello { first }</h1>\n}\n")
+	write("b.templ", "package watched\n\ntempl B() {\n\t<p>footer</p>\n}\n")
+	starts := func() int {
+		b, _ := os.ReadFile(filepath.Join(dir, "starts.log"))
+		return strings.Count(string(b), "started")
+	}
+	ctx, cancel := context.WithCancel(context.Background())
+	defer cancel()
+	go generatecmd.Run(ctx, quiet, generatecmd.Arguments{Path: dir, Watch: true, Command: "sh start.sh", WorkerCount: 2})
+	waitFor := func(n int, d time.Duration) bool {
+		deadline := time.Now().Add(d)
+		for time.Now().Before(deadline) {
+			if starts() >= n {
+				return true
+			}
+			time.Sleep(10 * time.Millisecond)
+		}
+		return false
+	}
+	if !waitFor(1, 90*time.Second) {
+		fmt.Println("WATCHORDER setup-failed")
+		templrun.KillAll()
+		os.Exit(0)
+	}
+	time.Sleep(700 * time.Millisecond) // well past the debounce window of the start-up
+	c0 := starts()
+	write("a.templ", "package watched\n\ntempl A(first, second string) {\n\t<h1>Hello { second }</h1>\n}\n")
+	time.Sleep(40 * time.Millisecond)
+	write("b.templ", "package watched\n\ntempl B() {\n\t<p>updated footer</p>\n}\n")
+	if waitFor(c0+1, 45*time.Second) {
+		fmt.Println("WATCHORDER ok")
+	} else {
+		fmt.Println("WATCHORDER missed")
+	}
+	templrun.KillAll() // the restarted command (and its sleep) goes with us
+	os.Exit(0)
+}
+
+// watchOrder runs the child up to three times: only three misses in a row are a violation.
+func watchOrder() {
+	self, _ := os.Executable()
+	outcome := ""
+	for attempt := 0; attempt < 3; attempt++ {
+		dir := filepath.Join(tgen.Scratch(), fmt.Sprintf("watchorder%d", attempt))
+		out, _ := exec.Command(self, "watchorder", dir).CombinedOutput()
+		outcome = "setup-failed"
+		for _, l := range strings.Split(string(out), "\n") {
+			if strings.HasPrefix(l, "WATCHORDER ") {
+				outcome = strings.TrimPrefix(l, "WATCHORDER ")
+			}
+		}
+		os.RemoveAll(dir)
+		if outcome != "missed" {
+			break
+		}
+	}
+	run.Cov["watch_command_two_saves_in_one_window"] = outcome
+	if outcome == "missed" {
+		run.Violation("watch-restart-forgotten", "templ generate --watch --cmd: a.templ was saved with another Go expression and 40 ms later b.templ with another text; the command was not restarted within 45 s (three attempts), so the running program keeps the old code of a.templ while reading the new text files", map[string]any{"saves": "a.templ: { first } -> { second }; 40 ms later b.templ: footer -> updated footer"})
+	}
+}
+
 func main() {
+	if len(os.Args) > 2 && os.Args[1] == "watchorder" {
+		watchOrderChild(os.Args[2])
+		return
+	}
 	run = vlib.Start("C16", "model_checking")
+	watchOrder()
 	renders := sameBytes()
 	states, transitions, cands := edits(run.Thorough())
 	confirm(cands)
